@@ -253,7 +253,7 @@ func (c *c18) check(cs *Case, record bool) *Case {
 	seen := map[string]bool{p.absRoot(): true}
 	for _, e := range refDisk.Log {
 		ap := filepath.Clean(e.Path)
-		if e.Op == "readfile" && e.Err == "" && !seen[ap] {
+		if isReadOp(e.Op) && e.Err == "" && !seen[ap] {
 			seen[ap] = true
 			reached = append(reached, ap)
 		}
